@@ -46,6 +46,11 @@ def owners(prog: dict) -> Dict[int, int]:
 def _cond_def(prog: dict, c: int, role: str, owner: int, params: List[str], indent: str) -> List[str]:
     """Source lines defining cond_<c> (and errf_<c>) unless it is a lambda; returns definitions."""
     con = prog["con"][c - 1]
+    eparams = params
+    if con.get("noold"):
+        params = [p for p in params if p != "OLD"]
+    ekw = ", ".join("{0}={0}".format(p) for p in eparams)
+    esig = ", ".join(eparams)
     owner_async = bool(owner) and prog["fn"][owner - 1]["async"]
     kw = ", ".join("{0}={0}".format(p) for p in params)
     sig = ", ".join(params)
@@ -65,8 +70,8 @@ def _cond_def(prog: dict, c: int, role: str, owner: int, params: List[str], inde
             lines.append("{}def cond_{}({}):".format(indent, c, sig))
             lines.append("{}    return H.cond({}, {!r}, {}, {})".format(indent, c, role, owner, kw))
     if con["err"] in ("factory", "badfactory"):
-        lines.append("{}def errf_{}({}):".format(indent, c, sig))
-        lines.append("{}    return H.errf({}, {!r}, {}, {})".format(indent, c, role, owner, kw))
+        lines.append("{}def errf_{}({}):".format(indent, c, esig))
+        lines.append("{}    return H.errf({}, {!r}, {}, {})".format(indent, c, role, owner, ekw))
     if con["err"] == "class":
         lines.append("{}class ErrClass_{}(Exception):".format(indent, c))
         lines.append("{}    pass".format(indent))
@@ -76,6 +81,8 @@ def _cond_def(prog: dict, c: int, role: str, owner: int, params: List[str], inde
 
 def _decorator(prog: dict, c: int, role: str, owner: int, params: List[str], check_on: str = "") -> str:
     con = prog["con"][c - 1]
+    if con.get("noold"):
+        params = [p for p in params if p != "OLD"]
     kw = ", ".join("{0}={0}".format(p) for p in params)
     sig = ", ".join(params)
     if con["lam"]:
